@@ -1,7 +1,7 @@
 (* C16 model, WHOLE class reader, part 1: the reader monad and the constant pool
    (duke/src/lib.rs ClassRead; duke/src/class_reader/pool.rs).
 
-   [M A := rd -> out (A * rd)]: a computation over the cursor (`Cursor<&[u8]>`: position and the
+   [M A := rcur -> out (A * rcur)]: a computation over the cursor (`Cursor<&[u8]>`: position and the
    bytes from the position on) with outcome Done | Fail (an Err of the reader) | Panic.  Panic is
    produced ONLY by the checked operations below (u8 / usize / i64 arithmetic of the source as the
    harness build evaluates it, `unreachable!()`, the cursor slice of read_code, the allocation
@@ -17,9 +17,9 @@ Open Scope N_scope.
 (* ------------------------------------------------------------------------------------------ *)
 (* the cursor and the monad                                                                     *)
 
-Record rd := mkRd { rpos : N; rrest : list N }.
+Record rcur := mkRd { rpos : N; rrest : list N }.
 
-Definition M (A : Type) : Type := rd -> out (A * rd).
+Definition M (A : Type) : Type := rcur -> out (A * rcur).
 Definition ret {A} (a : A) : M A := fun c => Done (a, c).
 Definition failM {A} : M A := fun _ => Fail.
 Definition panicM {A} : M A := fun _ => Panic.
@@ -129,7 +129,7 @@ Definition usize_add (a b : N) : out N := if a + b <=? usize_max then Done (a + 
 Definition i64_min : Z := (- 9223372036854775808)%Z.
 Definition i64_max : Z := 9223372036854775807%Z.
 Definition i64_op (z : Z) : out Z := if ((i64_min <=? z) && (z <=? i64_max))%Z then Done z else Panic.
-Definition as_u16 (x : N) : N := x mod 65536.
+Definition to_u16 (x : N) : N := x mod 65536.
 
 (* ------------------------------------------------------------------------------------------ *)
 (* strings: attribute names                                                                     *)
